@@ -48,6 +48,52 @@ def last_json(stdout):
     return None
 
 
+class Unmodelled(Exception):
+    pass
+
+
+def doc_fields(v, out):
+    """a parsed JSON document (objects as lists of pairs, in document order) as the Lean driver takes it"""
+    if isinstance(v, str):
+        out += ["S", v]
+    elif isinstance(v, bool) or v is None or isinstance(v, float):
+        raise Unmodelled(repr(v))
+    elif isinstance(v, int):
+        if v < 0:
+            raise Unmodelled(repr(v))
+        out += ["N", str(v)]
+    elif isinstance(v, list) and v and isinstance(v[0], tuple):
+        out += ["O", str(len(v))]
+        for k, x in v:
+            out.append(k)
+            doc_fields(x, out)
+    elif isinstance(v, list):
+        out += ["A", str(len(v))]
+        for x in v:
+            doc_fields(x, out)
+    elif isinstance(v, dict):
+        out += ["O", "0"]
+    else:
+        raise Unmodelled(repr(v))
+    return out
+
+
+def json_document_correspondence(run, d, raw, stats, mism, what):
+    """the report as bytes vs the Lean encoder on the same document: equal text, and the Lean decoder reads it back"""
+    try:
+        doc = json.loads(raw, object_pairs_hook=lambda ps: list(ps) if ps else {})
+        fields = doc_fields(doc, [])
+    except Unmodelled:
+        stats["json_docs_with_unmodelled_values"] += 1
+        return
+    except Exception:
+        return
+    r = d.call("jsondoc", *fields)
+    stats["json_docs_compared"] += 1
+    if r[0] != raw.strip() or r[1] != "roundtrip" or r[2] != "wf":
+        mism.append(dict(what=what, real=raw.strip()[:300], model=r[0][:300], decode=r[1], wf=r[2]))
+
+
 def run(run):
     C.build_driver()
     h, d = C.Harness(), C.Driver()
@@ -55,6 +101,7 @@ def run(run):
     quick = run.depth == "quick"
     stats = collections.Counter()
     mism = []
+    jmism = []
     proj = E.small_project(rng, h, nfiles=1, extra={"src/Nasty.java": NASTY})
     outdir = C.scratch("c15out")
     try:
@@ -125,6 +172,7 @@ def run(run):
                 raw = runs[name][3] if name == "json-file" else last_json(runs[name][1])
                 try:
                     docs[name] = json.loads(raw)
+                    json_document_correspondence(run, d, raw, stats, jmism, name)
                 except Exception as ex:
                     run.violation("C15:bad-json", "mode %s does not give a single well-formed JSON document for %r" % (name, text),
                                   dict(query=text, mode=name, raw=(raw or "")[:600], java=E.java_files(proj)))
@@ -224,5 +272,9 @@ def run(run):
         h.close()
         d.close()
     run.extra["histogram"] = dict(stats)
+    if mism:
+        pass
+    if jmism:
+        run.broken_obligation("correspondence:json-document", "the JSON report and the Lean encoder disagree on %d documents, e.g. %s" % (len(jmism), json.dumps(jmism[:2])[:1500]))
     if mism:
         run.broken_obligation("correspondence:row-layout", "Lean model's row layout and the CLI's rows disagree: %s" % json.dumps(mism[:3])[:1200])
